@@ -102,4 +102,9 @@ let burst inp impl =
     (m, if m = impl then "1" else "0")
   | _ -> failwith "burst: bad input"
 
-let () = Registry.register "slots" slots; Registry.register "idle" idle; Registry.register "burst" burst
+(* blockedwrite: write errors are ignored by the request loop and the deadline is
+   re-armed for reads AND writes at every request read, so the session ends by
+   idle expiry and the slot is released (Slots: End c IdleExpiry; Remove c) *)
+let blockedwrite _inp impl = ("released", if impl = "released" then "1" else "0")
+
+let () = Registry.register "blockedwrite" blockedwrite; Registry.register "slots" slots; Registry.register "idle" idle; Registry.register "burst" burst
